@@ -9,6 +9,7 @@ R07.3 union: LookaheadDFA::unite reads every field of `other` (states, transitio
       at least other.k - the runtime reads exactly k look-ahead tokens, so a union that keeps the k of its first
       operand cuts longer look-ahead strings of later productions off.
 R07.4 k is carried through every conversion (LookaheadDFA -> CompiledDFA -> AdjacencyList -> CompiledDFA -> render).
+R07.5 a state rename rewrites the references in every state (whole-map iteration).
 Trie construction and the correctness of minimisation are algorithmic and NOT decided.
 """
 from .. import cfg
@@ -181,3 +182,53 @@ def check(ctx):
                 ctx.check(ok, "R07.4", "%s|k-copied" % short(b2.path), "k is copied from the source automaton",
                           "the conversion does not carry the look-ahead depth k of its source", where(b2, line))
     ctx.require_floor("R07.4", "k_conversions", n, 2)
+    renames_cover_all_states(ctx, facts)
+
+
+def renames_cover_all_states(ctx, facts):
+    """R07.5 (added after seed C07-b) renaming / merging a state rewrites the references to it in *every* state: wherever the
+    minimiser calls Neighbors::rename_neighbor in a loop, the loop ranges over all entries of the adjacency list (values_mut /
+    iter_mut of the whole map), not over a key range, a filtered or truncated iterator.  After states were merged a state can be
+    referenced from higher-numbered states as well; a reference that is not rewritten leads into whatever state gets that number
+    later - the automaton predicts another production."""
+    from ..dataflow import operand_term
+    from .. import cfg
+    n = 0
+    PARTIAL = {"range", "range_mut", "filter", "take", "skip", "take_while", "skip_while", "step_by", "split_off", "first_key_value",
+               "last_key_value", "get", "get_mut", "nth"}
+    for b in facts.in_crate(PA):
+        if not (b.module or "").startswith("parol::analysis::compiled_la_dfa"):
+            continue
+        for c in b.calls():
+            if (c.path or "").split("::")[-1] != "rename_neighbor":
+                continue
+            loop = cfg.loop_containing(b, c.bb)
+            if loop is None:
+                continue
+            n += 1
+            # the iterator advanced in this loop
+            nexts = [x for x in b.calls() if x.bb in loop[1] and (x.path or "").split("::")[-1] == "next"]
+            chain = []
+            ok = False
+            for nx in nexts:
+                t = operand_term(b, nx.args[0]) if nx.args else ("unknown",)
+                hops = 0
+                while hops < 10:
+                    hops += 1
+                    if t[0] == "proj":
+                        t = t[1]
+                        continue
+                    if t[0] == "call":
+                        chain.append((t[1].path or "").split("::")[-1])
+                        t = operand_term(b, t[1].args[0]) if t[1].args else ("unknown",)
+                        continue
+                    break
+                if t[0] == "path" and "list" in t[2] and not (set(chain) & PARTIAL) and \
+                        (set(chain) & {"values_mut", "iter_mut", "values", "iter", "into_iter"}):
+                    ok = True
+            ctx.check(ok, "R07.5", "%s|rename-covers-all-states" % short(b.path),
+                      "rename_neighbor is applied to every entry of the adjacency list (%s)" % ".".join(reversed(chain)),
+                      "%s applies rename_neighbor only to a part of the adjacency list (%s): references from the other states keep "
+                      "the old state number" % (short(b.path), ".".join(reversed(chain)) or "no whole-map iterator found"),
+                      where(b, c.line))
+    ctx.require_floor("R07.5", "rename_loops", n, 1)
